@@ -269,3 +269,70 @@ def root_lists(max_len: int, names: str = "ABCDEZ") -> List[Tuple[str, ...]]:
 
 def below(oid: ber.Oid, root: ber.Oid) -> bool:
     return len(oid) > len(root) and oid[:len(root)] == root
+
+
+# ---------------------------------------------------------------------------
+# decode-call budget (C09, C19, C20): non-termination becomes an exception
+# ---------------------------------------------------------------------------
+class BudgetExceeded(Exception):
+    pass
+
+
+class DecodeBudget:
+    """
+    Counts calls of x690's ``decode`` (every name it is bound to in x690 and
+    puresnmp) and raises `BudgetExceeded` beyond *limit*.  x690's TLV walking
+    (Sequence.decode_raw, get_value_slice) goes through that function once per
+    element, so a parse that loops or re-scans without progress exceeds any
+    budget proportional to the datagram size.
+    """
+
+    MODULES = ["x690.types", "x690", "puresnmp.pdu", "puresnmp.adt", "puresnmp_plugins.security.usm",
+               "puresnmp_plugins.mpm.v1", "puresnmp_plugins.mpm.v2c"]
+
+    def __init__(self, limit: int) -> None:
+        self.limit = limit
+        self.calls = 0
+        self.indefinite = False   # run-signature of known finding F14
+        self.saved: List[Tuple[Any, str, Any]] = []
+
+    def __enter__(self) -> "DecodeBudget":
+        import importlib
+        import x690.types as xt
+        import x690.util as xu
+        orig = xt.decode
+        budget = self
+
+        def counted(*a, **kw):
+            budget.calls += 1
+            if budget.calls > budget.limit:
+                raise BudgetExceeded("more than %d decode calls" % budget.limit)
+            return orig(*a, **kw)
+
+        counted.__wrapped__ = orig  # type: ignore
+        for name in self.MODULES:
+            try:
+                mod = importlib.import_module(name)
+            except ImportError:
+                continue
+            if getattr(mod, "decode", None) is orig:
+                self.saved.append((mod, "decode", orig))
+                setattr(mod, "decode", counted)
+        orig_len = xu.decode_length
+
+        def watched_len(data, index=0):
+            res = orig_len(data, index)
+            if res[0] == -1:
+                budget.indefinite = True
+            return res
+
+        for mod in (xu,):
+            self.saved.append((mod, "decode_length", orig_len))
+            setattr(mod, "decode_length", watched_len)
+        return self
+
+    def __exit__(self, *exc) -> bool:
+        for mod, name, orig in reversed(self.saved):
+            setattr(mod, name, orig)
+        self.saved = []
+        return False
